@@ -80,7 +80,8 @@ def run_check(prop, tier, *, lean_module, cases, execute, compare, oracle, class
         known_hits[cls] += 1
         rep.known_finding(f"{cls}: {known_open[cls]['what_fails']}")
         if diffs:
-          disagreements.append((case, diffs, real, model))
+          # the code deviates from the model on this case because of the recorded defect
+          model_stats['disagreements_explained_by_known_findings'] += 1
       else:
         failures.append((case, fail, real, model))
     elif diffs:
@@ -96,6 +97,9 @@ def run_check(prop, tier, *, lean_module, cases, execute, compare, oracle, class
       searched += 1
       diffs, fail, real, model = one(tag, case, count=False)
       if fail:
+        cls = classify(case, fail) if classify else None
+        if cls is not None and cls in known_open:
+          continue          # a recorded finding is not the failing input we are looking for
         failures.append((case, fail, real, model))
         break
 
@@ -116,7 +120,7 @@ def run_check(prop, tier, *, lean_module, cases, execute, compare, oracle, class
                      'audit_output_tail': lean.get('audit_output_tail', ''),
                      'tables_changed': lean.get('tables_changed'),
                      'widened_search_cases': searched}, no_failing_input=True)
-    elif disagreements and not any(classify and classify(c, f) in known_open for c, f, _, _ in failures):
+    elif disagreements:
       case, diffs, real, model = disagreements[0]
       rep.violation({'kind': 'correspondence-broken', 'case': case,
                      'differences': [list(map(_j, d)) for d in diffs[:5]],
